@@ -329,22 +329,16 @@ Corollary parse_mfl_print_lemma ss :
   canonical ss = true ->
   parse_mfl (stringify ss) =
   if allometry_bracketed false (stmts_tokens ss) then Rejected else
-  match elaborate_all ss with
-  | Some ss' => if existsb allometry_missing_ref ss then InternalError else Accepted ss'
-  | None => Rejected
-  end.
+  match elaborate_all ss with Some ss' => Accepted ss' | None => Rejected end.
 Proof.
   intro H. unfold parse_mfl. rewrite (mfl_parse_print_lemma ss H).
   unfold canonical in H. apply andb_true_iff in H. destruct H as [_ Hok].
   unfold stringify. rewrite (lex_render _ (sep_ok_stmts ss Hok)). reflexivity.
 Qed.
 
-(* the interpreter's internal error needs an ALLOMETRY statement without reference value *)
-Lemma parse_mfl_internal_error text :
-  parse_mfl text = InternalError ->
-  exists ss, parse_ref text = Some ss /\ existsb allometry_missing_ref ss = true.
+(* no text is answered with an internal error: it is read or refused *)
+Lemma parse_mfl_never_internal text : parse_mfl text <> InternalError.
 Proof.
   unfold parse_mfl. destruct (lex text) as [ts|]; [|discriminate]. destruct (allometry_bracketed false ts); [discriminate|].
-  destruct (parse_ref text) as [ss|]; [|discriminate]. destruct (elaborate_all ss); [|discriminate].
-  destruct (existsb allometry_missing_ref ss) eqn:E; [|discriminate]. intros _. exists ss. auto.
+  destruct (parse_ref text) as [ss|]; [|discriminate]. destruct (elaborate_all ss); discriminate.
 Qed.
